@@ -224,6 +224,11 @@ def base_catalog():
     F2 = E("F2", L8, V("A", U8), V("B", FlexT(VecT(U8, L8), L8)), sized=False)
     F3 = S("F3", "n", U8, "f", FlexT(StrT(L8), L8), sized=False, default=True)
     c += [F1, F2, F3]
+    # unsized enums with a default variant and a tag wider than one byte (the tag write of the generated default emplacer)
+    DE16 = E("DE16", L16, V("Idle"), V("Data", VecT(U8, L16)), sized=False, default=0)
+    DE32 = E("DE32", L32, V("A", U8), V("B"), V("C", U16, StrT(L8)), sized=False, default=1)
+    DEP = E("DEP", LLE16 if False else L8, V("A", BOOL), V("B"), V("C", LE_U16, VecT(U8, LLE16)), sized=False, portable=True, default=1)
+    c += [DE16, DE32, DEP, FlexT(DE16, L16)]
     # a fixed set of generated definitions widens the shapes (the thorough tier adds seeded ones on top)
     c += random_catalog(20260926, 40, prefix="G")
     return c
